@@ -44,6 +44,13 @@ deriving DecidableEq, Repr, Inhabited
 /-- A stored output path: `Namespace.__init__` / `make_path` either produce a path or raise. -/
 abbrev PathR := Except Err Path
 
+instance : DecidableEq PathR := fun a b =>
+  match a, b with
+  | .ok x, .ok y => if h : x = y then isTrue (by rw [h]) else isFalse (by intro e; cases e; exact h rfl)
+  | .error x, .error y => if h : x = y then isTrue (by rw [h]) else isFalse (by intro e; cases e; exact h rfl)
+  | .ok _, .error _ => isFalse (by intro e; cases e)
+  | .error _, .ok _ => isFalse (by intro e; cases e)
+
 /-! ### The part of `pathlib.PurePosixPath` that is used -/
 
 /-- `s.split('/')`. -/
@@ -99,8 +106,10 @@ def withSuffix (p : Path) (ext : Str) : PathR :=
 
 def parentPath (p : Path) : Path := if p = [rootPart] then p else p.dropLast
 
+/-- `p.relative_to(base)`: an absolute path is never relative to a relative one (not even to `.`). -/
 def relativeTo (p base : Path) : PathR :=
-  if base.isPrefixOf p then .ok (p.drop base.length) else .error .notRelative
+  if p.head? = some rootPart ∧ base.head? ≠ some rootPart then .error .notRelative
+  else if base.isPrefixOf p then .ok (p.drop base.length) else .error .notRelative
 
 def joinWith (sep : Str) : List Str → Str
   | [] => []
@@ -131,6 +140,9 @@ def verStr (n : Nat) : Str := Nat.toDigits 10 n
 
 /-- `f"{short_name}_{major}_{minor}"`. -/
 def shortVer (t : Ty) : Str := t.short ++ '_' :: (verStr t.major ++ '_' :: verStr t.minor)
+
+/-- What `make_path` does to a name: stropped only if `enable_stropping` is on. -/
+def estrop (cfg : Cfg) (s : Str) : Str := if cfg.enable then cfg.strop s else s
 
 /-- `filter_short_reference_name(dt, id_type="path")`: stropped as a whole, only if stropping is on. -/
 def shortRef (cfg : Cfg) (t : Ty) : Str := if cfg.enable then cfg.strop (shortVer t) else shortVer t
@@ -201,7 +213,7 @@ def getOrMake (cfg : Cfg) (st : Store) (k : Key) : Store × Bool :=
   if hasKey st k then (st, true) else (st ++ [mkNode cfg k], false)
 
 /-- In-place mutation of the namespace object with key `k`. -/
-def modify (st : Store) (k : Key) (f : Node → Node) : Store :=
+def modifyNode (st : Store) (k : Key) (f : Node → Node) : Store :=
   st.map (fun n => if n.comps = k then f n else n)
 
 /-- `d[t] = p`. -/
@@ -224,29 +236,38 @@ structure S1 where
 def step1 (cfg : Cfg) (s : S1) (t : Ty) : S1 :=
   let r := getOrMake cfg s.store t.ns
   let idx := if r.2 then s.idx else indexAncestors t.ns t.ns.length s.idx
-  ⟨modify r.1 t.ns (fun n => { n with types := insertTy n.types t (outputPath cfg t) }), idx⟩
+  ⟨modifyNode r.1 t.ns (fun n => { n with types := insertTy n.types t (outputPath cfg t) }), idx⟩
 
 def loop1 (cfg : Cfg) (ts : List Ty) : S1 := ts.foldl (step1 cfg) ⟨[], []⟩
 
-/-- `Namespace.__eq__` / `__hash__`: the stropped full name. -/
-def sameNs (cfg : Cfg) (a b : Key) : Bool := a.map cfg.strop = b.map cfg.strop
+/-- `Namespace.__eq__` / `__hash__` since the `fix:` commit for the folded-sibling defect: the DSDL name
+(`_namespace_components`). -/
+def sameNs (a b : Key) : Bool := a = b
 
-/-- `set.add`. -/
-def addNested (cfg : Cfg) (l : List Key) (c : Key) : List Key :=
-  if l.any (fun x => sameNs cfg x c) then l else l ++ [c]
+/-- `Namespace.__eq__` / `__hash__` before that commit: the *stropped* full name.  Two sibling
+namespaces that strop to one identifier were one set element; `Properties.C11` keeps the witness. -/
+def sameNsBeforeFix (cfg : Cfg) (a b : Key) : Bool := a.map cfg.strop = b.map cfg.strop
+
+/-- `set.add` under the element equality `same`. -/
+def addNestedBy (same : Key → Key → Bool) (l : List Key) (c : Key) : List Key :=
+  if l.any (fun x => same x c) then l else l ++ [c]
 
 /-- Body of `for full_namespace in namespace_index`. -/
-def step2 (cfg : Cfg) (st : Store) (k : Key) : Store :=
+def step2By (same : Key → Key → Bool) (cfg : Cfg) (st : Store) (k : Key) : Store :=
   let st1 := (getOrMake cfg st k).1
   let pk := k.dropLast
   if pk = [] then st1 else
   let st2 := (getOrMake cfg st1 pk).1
-  let st3 := modify st2 pk (fun n => { n with nested := addNested cfg n.nested k })
-  modify st3 k (fun n => { n with parent := some pk })
+  let st3 := modifyNode st2 pk (fun n => { n with nested := addNestedBy same n.nested k })
+  modifyNode st3 k (fun n => { n with parent := some pk })
 
 /-- The second pass over the index in the order `ks` (the code iterates a `set` of strings: any
 order; the theorems hold for every `ks` with the same members as the index). -/
-def loop2 (cfg : Cfg) (st : Store) (ks : List Key) : Store := ks.foldl (step2 cfg) st
+def loop2By (same : Key → Key → Bool) (cfg : Cfg) (st : Store) (ks : List Key) : Store :=
+  ks.foldl (step2By same cfg) st
+
+def step2 (cfg : Cfg) (st : Store) (k : Key) : Store := step2By sameNs cfg st k
+def loop2 (cfg : Cfg) (st : Store) (ks : List Key) : Store := loop2By sameNs cfg st ks
 
 /-- `get_root_namespace`: `while namespace._parent is not None`. -/
 def climb (st : Store) : Nat → Key → Key
@@ -267,14 +288,20 @@ def finish (cfg : Cfg) (st : Store) : Tree :=
 def buildWith (cfg : Cfg) (ts : List Ty) (ks : List Key) : Tree :=
   finish cfg (loop2 cfg (loop1 cfg ts).store ks)
 
+def buildWithBeforeFix (cfg : Cfg) (ts : List Ty) (ks : List Key) : Tree :=
+  finish cfg (loop2By (sameNsBeforeFix cfg) cfg (loop1 cfg ts).store ks)
+
 /-- `build_namespace_tree` (second pass in index insertion order). -/
 def buildTree (cfg : Cfg) (ts : List Ty) : Tree := buildWith cfg ts (loop1 cfg ts).idx
 
+def isOk : PathR → Bool
+  | .ok _ => true
+  | .error _ => false
+
 /-- Every `Namespace.__init__` / `make_path` call of the build succeeded; otherwise the
 `ValueError` propagates out of `build_namespace_tree`. -/
-def buildOk (tr : Tree) : Bool :=
-  tr.store.all (fun n => (match n.outPath with | .ok _ => true | .error _ => false) &&
-    n.types.all (fun e => match e.2 with | .ok _ => true | .error _ => false))
+def buildOk (cfg : Cfg) (tr : Tree) : Bool :=
+  (keysOf tr.store).all (fun k => isOk (pathOf cfg tr.store k) && (typesOf tr.store k).all (fun e => isOk e.2))
 
 /-! ### Traversals (Python recursion over the object graph; fuel = remaining depth) -/
 
@@ -315,30 +342,33 @@ inductive Found where
   | hit (p : PathR)
   | keyError
   | fuel
-deriving Repr
+deriving DecidableEq, Repr
 
-/-- `_bfs_search_for_output_path`: `appendleft` + `pop` is a FIFO queue. -/
-def bfs (cfg : Cfg) (st : Store) (t : Ty) (skip : Key) : Nat → List Key → Found
+/-- `_bfs_search_for_output_path`: `appendleft` + `pop` is a FIFO queue; `skip_namespace` is a set of
+namespaces, membership by `same`. -/
+def bfsBy (same : Key → Key → Bool) (st : Store) (t : Ty) (skip : Key) : Nat → List Key → Found
   | 0, _ => .fuel
   | _ + 1, [] => .keyError
   | f + 1, k :: q =>
-    match (if sameNs cfg k skip then none else lookupTy (typesOf st k) t) with
+    match (if same k skip then none else lookupTy (typesOf st k) t) with
     | some p => .hit p
-    | none => bfs cfg st t skip f (q ++ nestedOf st k)
+    | none => bfsBy same st t skip f (q ++ nestedOf st k)
 
 /-- `start.find_output_path_for_type(t)` for a composite type: own dict, then BFS from the root
 (reached from `start` through the parent links), skipping `start`. -/
-def findPath (cfg : Cfg) (st : Store) (start : Key) (t : Ty) : Found :=
+def findPathBy (same : Key → Key → Bool) (st : Store) (start : Key) (t : Ty) : Found :=
   match lookupTy (typesOf st start) t with
   | some p => .hit p
   | none =>
     let root := climb st start.length start
-    bfs cfg st t start ((nsGen st (depthFuel st root) root).length + 1) [root]
+    bfsBy same st t start ((nsGen st (depthFuel st root) root).length + 1) [root]
+
+def findPath (st : Store) (start : Key) (t : Ty) : Found := findPathBy sameNs st start t
 
 /-- `filter_type_to_include_path(t)` of a generator created for the tree's root:
 `find_output_path_for_type(t).relative_to(root.output_folder.parent)`. -/
 def typeToIncludePath (cfg : Cfg) (tr : Tree) (t : Ty) : PathR :=
-  match findPath cfg tr.store tr.root t with
+  match findPath tr.store tr.root t with
   | .hit (.ok p) => relativeTo p (parentPath (nsFolder cfg tr.root))
   | .hit (.error e) => .error e
   | .keyError => .error .keyError
@@ -352,5 +382,7 @@ def IsNs (L : List Key) (k : Key) : Prop := k ≠ [] ∧ ∃ n ∈ L, k <+: n
 /-- A path segment that pathlib takes as exactly one part and whose suffix is empty: non-empty, no
 `/`, no `.`.  Every identifier is one. -/
 def IdSeg (s : Str) : Prop := s ≠ [] ∧ '/' ∉ s ∧ '.' ∉ s
+
+instance (s : Str) : Decidable (IdSeg s) := by unfold IdSeg; infer_instance
 
 end NunavutVerif.Namespace
